@@ -303,8 +303,13 @@ fn diff(a: &Obs, b: &Obs, what: &[&str]) -> Option<String> {
 }
 
 pub fn gen_mhist(rng: &mut Rng, with_rewrites: bool) -> MHist {
-    let ns = rng.range(2, 3);
-    let ops: Vec<&'static str> = vec!["f", "g", "h", "k", "var", "c", "d", "u", "w", "app", "pair", "lam", "sum", "let", "idx"];
+    gen_mhist_q(rng, with_rewrites, false)
+}
+
+/// `with_q`: few operators incl. the four-slot leaf `q`, four names (classes with >= 4 slots and symmetries on some of them only)
+pub fn gen_mhist_q(rng: &mut Rng, with_rewrites: bool, with_q: bool) -> MHist {
+    let ns = if with_q { 4 } else { rng.range(2, 3) };
+    let ops: Vec<&'static str> = if with_q { vec!["q", "h", "g", "f", "k", "c", "u", "lam", "app", "pair"] } else { vec!["f", "g", "h", "k", "var", "c", "d", "u", "w", "app", "pair", "lam", "sum", "let", "idx"] };
     let cfg = GenCfg { lang: &LSYM, ops, ns, max_depth: 2, max_names: 4, shadow: rng.chance(1, 3) };
     let h = gen_history(rng, &cfg, 6, 5);
     let mut ops: Vec<MOp> = h.ops.iter().map(|o| match o { HOp::Add(i) => MOp::Add(*i), HOp::Union(a, b) => MOp::Union(*a, *b) }).collect();
@@ -402,9 +407,9 @@ fn c12_eval(h: &MHist, perms: &[(Vec<usize>, Vec<bool>)]) -> Option<(String, Str
     None
 }
 
-pub fn c12_case(rng: &mut Rng, norders: usize) -> CaseOut {
+pub fn c12_case(rng: &mut Rng, norders: usize, with_q: bool) -> CaseOut {
     let mut out = CaseOut::default();
-    let h = gen_mhist(rng, false);
+    let h = gen_mhist_q(rng, false, with_q);
     let n = h.ops.len();
     let nun = h.ops.iter().filter(|o| matches!(o, MOp::Union(..))).count();
     let mut perms = vec![];
@@ -491,10 +496,10 @@ fn c11_eval(h: &MHist, nb: &Naming) -> Option<(String, String)> {
 
 fn install_thread_hook() {}
 
-pub fn c11_case(rng: &mut Rng, lazy_f_names: bool) -> CaseOut {
+pub fn c11_case(rng: &mut Rng, lazy_f_names: bool, with_q: bool) -> CaseOut {
     let mut out = CaseOut::default();
-    let wr = rng.chance(1, 2);
-    let h = gen_mhist(rng, wr);
+    let wr = !with_q && rng.chance(1, 2);
+    let h = gen_mhist_q(rng, wr, with_q);
     let mut nb = Naming::random(rng);
     if lazy_f_names {
         // hygiene lane of C17: user names f0.. / numeric 0.., first parsed when the operation needs them,
@@ -857,11 +862,13 @@ pub fn run(args: &Args, rep: &mut Rep) {
     match args.prop.as_str() {
         "C12" => {
             let n = args.param_u("orders", 4) as usize;
-            drive(args, rep, move |rng, _| c12_case(rng, n));
+            let with_q = args.param_u("with_q", 0) == 1;
+            drive(args, rep, move |rng, _| c12_case(rng, n, with_q));
         }
         "C11" => {
             let lazy = args.param_u("lazy", 0) == 1;
-            drive(args, rep, move |rng, _| c11_case(rng, lazy));
+            let with_q = args.param_u("with_q", 0) == 1;
+            drive(args, rep, move |rng, _| c11_case(rng, lazy, with_q));
         }
         _ => {
             let lo = args.param_u("len_lo", 30) as usize;
